@@ -1,7 +1,7 @@
 (* C10 - Prefix and suffix relations are consistent with equality and joining. *)
 From Coq Require Import List NArith Bool.
 Import ListNotations.
-From TP Require Import Core Path Unix Win Spec GenJoin WinSimple C04Proofs C10Proofs C10WinProofs.
+From TP Require Import Core Path Unix Win Spec GenJoin WinSimple C04Proofs C10Proofs WinProofs C10WinProofs WinExtend C10WinAll WinVerbJoin WinVerbMore.
 
 (* Unix, all byte strings p q. *)
 (* starts_with holds exactly when q's components are a leading run of p's components *)
@@ -95,9 +95,67 @@ Proof. vm_compute. split; reflexivity. Qed.
 Lemma C10_windows_d15_refuted :
   w_strip_prefix [67;58;92;92;97] [67;58] = Some [92;92;97] /\ w_push [67;58] [92;92;97] = [92;92;97].
 Proof. vm_compute. split; reflexivity. Qed.
-(* C10_windows_partial: for Windows paths with prefixes the relations are decided by oracle_c10 on every
-   explored pair (component relations over wspec, join-back, join consistency), with D7 / D10 / D15 as
-   the known classes. *)
+(* Windows, EVERY pair of paths, one direction (C10WinAll.v): whenever q's components are a leading (trailing)
+   run of p's components -- the same components, a prefix spelled the same way -- starts_with (ends_with) holds
+   and strip_prefix succeeds, handing back the iterator state whose components are the rest; in particular a
+   path starts with and ends with itself, whatever its prefix.  (The converse, and prefixes that are equal but
+   spelled differently, are the finding D7.) *)
+Theorem C10_windows_starts_with_complete : forall p q : list N,
+  (exists t, wspec p = wspec q ++ t) -> w_starts_with p q = true.
+Proof. exact w_starts_with_complete. Qed.
+Theorem C10_windows_ends_with_complete : forall p q : list N,
+  (exists t, wspec p = t ++ wspec q) -> w_ends_with p q = true.
+Proof. exact w_ends_with_complete. Qed.
+Theorem C10_windows_strip_prefix_complete : forall p q : list N, (exists t, wspec p = wspec q ++ t) ->
+  exists s, w_strip_prefix p q = Some (w_remaining s) /\ winv s /\ wspec p = wspec q ++ wcs s.
+Proof. exact w_strip_prefix_complete. Qed.
+Theorem C10_windows_self : forall p : list N, w_starts_with p p = true /\ w_ends_with p p = true.
+Proof. exact w_starts_with_refl. Qed.
+(* "for a relative, prefix-free b and an a without a verbatim prefix, a joined with b starts with a, and
+   stripping a from it yields b's components, minus a leading ." -- for a with a UNC, device-namespace or drive
+   prefix followed by a non-empty rest (WinExtend.v) *)
+Theorem C10_windows_join_starts_prefixed : forall (a : list N) (k : wprefix) (r b : list N),
+  wprefix_grammar a = Some (k, r) -> k_verbatim k = false -> r <> [] ->
+  noprefix b = true -> g_rooted (wsep true) b = false -> w_starts_with (w_push a b) a = true.
+Proof. exact w_join_starts_with_prefixed. Qed.
+Theorem C10_windows_join_strip_prefixed : forall (a : list N) (k : wprefix) (r b : list N),
+  wprefix_grammar a = Some (k, r) -> k_verbatim k = false -> r <> [] ->
+  noprefix b = true -> g_rooted (wsep true) b = false -> b <> [] ->
+  exists s, w_strip_prefix (w_push a b) a = Some (w_remaining s) /\ winv s /\ wcs s = map WC (gadded (wsep true) b).
+Proof. exact w_join_strip_prefixed. Qed.
+Print Assumptions C10_windows_starts_with_complete.
+Print Assumptions C10_windows_ends_with_complete.
+Print Assumptions C10_windows_strip_prefix_complete.
+Print Assumptions C10_windows_self.
+Print Assumptions C10_windows_join_starts_prefixed.
+Print Assumptions C10_windows_join_strip_prefixed.
+(* ... and a checked join onto a base with a verbatim prefix followed by a root starts with the base *)
+Theorem C10_windows_join_starts_verbatim : forall (a : list N) (k : wprefix) (r p : list N),
+  wprefix_grammar a = Some (k, r) -> k_verbatim k = true -> k <> Verbatim [85; 78; 67] ->
+  sep_headed (s_wsep (s_norm a)) r -> p <> [] -> w_scan (wspec p) O = None ->
+  w_starts_with (w_push a p) a = true.
+Proof. exact w_join_checked_starts_with_verbatim. Qed.
+Print Assumptions C10_windows_join_starts_verbatim.
+(* Windows, EVERY pair of paths, exactly (C10WinAll.v): starts_with / ends_with hold precisely when the BYTE
+   SPELLINGS of q's components are a leading / trailing run of the byte spellings of p's components, and
+   strip_prefix succeeds precisely when starts_with holds.  The distance between this and the property's "q's
+   components are a leading run of p's components" is exactly the finding D7: components with equal spelling
+   that are different (Normal "C:" vs the drive C:), and equal components spelled differently (C: vs c:). *)
+Theorem C10_windows_starts_with_exact : forall p q : list N,
+  w_starts_with p q = true <-> exists c1 t, wspec p = c1 ++ t /\ map wc_bytes c1 = map wc_bytes (wspec q).
+Proof. exact w_starts_with_bytes_iff. Qed.
+Theorem C10_windows_ends_with_exact : forall p q : list N,
+  w_ends_with p q = true <-> exists t c1, wspec p = t ++ c1 /\ map wc_bytes c1 = map wc_bytes (wspec q).
+Proof. exact w_ends_with_bytes_iff. Qed.
+Theorem C10_windows_strip_iff_starts : forall p q : list N,
+  (exists r, w_strip_prefix p q = Some r) <-> w_starts_with p q = true.
+Proof. exact w_strip_iff_starts_all. Qed.
+Print Assumptions C10_windows_starts_with_exact.
+Print Assumptions C10_windows_ends_with_exact.
+Print Assumptions C10_windows_strip_iff_starts.
+(* C10_windows_partial: what is left to oracle_c10 on explored pairs: that outside the D7 class equal spellings
+   mean equal components (component relations over wspec), the re-reading of the remainder as a path (D15), and
+   joins onto a bare prefix (D10). *)
 
 Example C10_example :
   u_starts_with [47;97;47;47;98;47;46;47;99] [47;97;47;98] = true       (* /a//b/./c starts with /a/b *)
